@@ -39,6 +39,7 @@ type Plan struct {
 	Skip  bool  `json:",omitempty"` // the receiver's inbound label check is delegated (SkipInboundLabelCheck): genuine traffic arrives WITHOUT a header, sealed with the label as associated data; anything that still carries a header must be dropped
 	G     int
 	Mod   Mod
+	Late  bool `json:",omitempty"` // the receiver was created with an empty keyring and keyed at run time
 }
 
 var corpus = hostile.Corpus()
@@ -47,6 +48,7 @@ func genPlan(t *rapid.T) Plan {
 	p := Plan{Seed: 1, Label: rapid.SampledFrom([]string{"", "lbl"}).Draw(t, "label"), PV: uint8(rapid.SampledFrom([]int{2, 2, 1}).Draw(t, "pv")),
 		G: rapid.IntRange(0, len(corpus)-1).Draw(t, "g")}
 	p.Skip = p.Label != "" && rapid.IntRange(0, 2).Draw(t, "skip") == 0
+	p.Late = rapid.IntRange(0, 3).Draw(t, "late") == 0
 	m := Mod{Kind: rapid.SampledFrom([]string{"bitflip", "bitflip", "bitflip", "bitflip", "setbyte", "truncate", "extend", "splice", "header-label", "aad-label", "foreign-cluster",
 		"foreign-key", "removed-key", "removed-key", "other-key-removed", "removed-key-midstream", "removed-key-midstream", "key-added-midstream", "unknown-key-added", "secondary-key", "plaintext", "double-seal", "identity", "version-flip", "version-flip"}).Draw(t, "mod")}
 	m.Pos = rapid.IntRange(0, 999).Draw(t, "pos")
@@ -79,7 +81,7 @@ func deliver(pl Plan, raw []byte, stream bool, prep func(w *hostile.World)) (o h
 	split, mid := midSplit, midOp
 	midSplit, midOp = -1, nil
 	synctest.Test(theT, func(t *testing.T) {
-		w, e := hostile.NewWorld(pl.Seed, hostile.Cfg{Label: pl.Label, Encrypt: true, PV: pl.PV, Skip: pl.Skip})
+		w, e := hostile.NewWorld(pl.Seed, hostile.Cfg{Label: pl.Label, Encrypt: true, PV: pl.PV, Skip: pl.Skip, LateKey: pl.Late})
 		if e != nil {
 			err = e
 			return
@@ -149,6 +151,9 @@ func runPlan(pl Plan) (res vfx.Result) {
 	hdr, ckLabel := pl.Label, pl.Label
 	if pl.Skip {
 		hdr, ckLabel = "", pl.Label+"|skip"
+	}
+	if pl.Late {
+		ckLabel += "|late"
 	}
 	genuine := seal(g.Plain, g.Stream, hostile.KeyA, vsn, pl.Label, hdr, 7)
 	lay := layoutOf(genuine, hdr, g.Stream)
@@ -397,6 +402,9 @@ func runPlan(pl Plan) (res vfx.Result) {
 	res.Labels = []string{"mod:" + m.Kind, "msg:" + g.Name, fmt.Sprintf("encvsn=%d", vsn)}
 	if pl.Skip {
 		res.Labels = append(res.Labels, "receiver-skips-label-check", "skip|mod:"+m.Kind)
+	}
+	if pl.Late {
+		res.Labels = append(res.Labels, "receiver-keyed-at-run-time", "late|mod:"+m.Kind)
 	}
 	if m.Kind == "bitflip" || m.Kind == "setbyte" {
 		res.Labels = append(res.Labels, "field:"+m.Field)
